@@ -209,6 +209,15 @@ def node_twin(inst):
     return {"fam": inst["fam"], "nodes": V, "arcs": [[a[0], a[1], None] for a in inst["arcs"]], "node_w": nv}
 
 
+def with_isolated_node(nt_inst, value=4):
+    """node-weighted instance + one node without any arc (a source that is also a sink) carrying `value`: the only route through it is the
+    single-node route [q], which every node-mode model has to return like any other route"""
+    q = next(x for x in ("q", "q1", "q2", "q3") if x not in nt_inst["nodes"])
+    nw = dict(nt_inst["node_w"])
+    nw[q] = value
+    return dict(nt_inst, nodes=list(nt_inst["nodes"]) + [q], node_w=nw), q
+
+
 def width_of(inst, ignored=(), starts=(), ends=()):
     E = [(a[0], a[1]) for a in inst["arcs"]]
     g = O.STGraph(inst["nodes"], E, starts, ends)
